@@ -11,7 +11,7 @@ Tie   : seeded host-chosen operation sequences run on the extracted model (ocaml
         (harness/genrun_rust/rt.rs); table, outstanding borrows, free-index stack, live boxes and event multiset compared after
         every activation.
 Search: the property's own counting statement evaluated on the REAL event stream (+ allocator errors)."""
-import json, os, time, concurrent.futures
+import json, os, re, time, concurrent.futures
 import vf
 import genrun_rust as G
 import genrun_c07 as C7
@@ -86,6 +86,99 @@ def run_sequence(ws, mexe, mod, seq):
     return res
 
 
+def handles_leg(ctx, tools):
+    """leg B: own/borrow handles of an imported resource inside random aggregate types, many option sets (see lib/genrun_c07.py).
+    -> (list of (key, text, replay object), stats)"""
+    import witgen
+    quick = ctx.tier == "quick"
+    nworlds, per, ncalls = (6, 2, 3) if quick else (60, 3, 4)
+    rng = vf.Rng(ctx.seed ^ 0xc07b)
+    fixed_rng = vf.Rng(0xc07b)
+    worlds = []
+    tries = 0
+    while len(worlds) < nworlds and tries < 8:
+        tries += 1
+        batch = []
+        for i in range(nworlds - len(worlds) + 3):
+            # quick tier: two thirds of the worlds do not depend on the seed (their guest crates stay cached)
+            r = fixed_rng if (quick and len(worlds) + i < 4) else rng
+            idx = len(worlds) + i + 50 * tries
+            w = witgen.gen_world(r.fork(idx), witgen.Opts(features=["fixed", "maps"], max_depth=2, n_ifaces=(1, 2), n_types=(1, 4), n_funcs=(2, 3), max_params=4,
+                                                          package="hb%d:p" % idx))
+            text = C7.inject_handles(r, w.text)
+            if " r" in text.split("interface hres")[1].split("}", 1)[1]:
+                batch.append((w.world, text))
+        res = vf.run_filter([tools.corelib, "parse"], [witgen.encode_line(t) for _, t in batch])
+        for (wn, t), ok in zip(batch, res):
+            if ok.startswith("ok") and len(worlds) < nworlds and re.search(r"(<|: |\(|, )(borrow<r>|r)\b", t.split("interface hres")[1].split("}", 1)[1]):
+                worlds.append((wn, t))
+    specs = []
+    for i, (wn, t) in enumerate(worlds):
+        for j in range(per):
+            op = G.OptSet(rng.choice(["owning", "borrowing"]) if j else ("owning" if i % 2 else "borrowing"), rng.chance(1, 2), rng.chance(1, 2), rng.chance(1, 2), False)
+            if quick and i < 4:
+                op = G.OptSet("owning" if (i + j) % 2 else "borrowing", j == 1, i % 2 == 0, (i + j) % 3 == 0, False)
+            specs.append(("hb%do%d" % (i, j), t.replace("package hb", "package hb%dx" % j, 1) if False else t, wn, op, "handles"))
+    # the same world under two option sets must not export the same symbols: the export prefix (module name) keeps them apart
+    units = G.prepare_units(tools, specs, resources=True, max_src=250_000)
+    ws, ok, log = G.build_units(units)
+    stats = {"worlds": len(worlds), "modules": len([u for u in units if not u.skip]), "skipped": {}, "calls": 0, "handle_leaves": 0, "events": 0}
+    for u in units:
+        if u.skip:
+            k = u.skip[:90]
+            stats["skipped"][k] = stats["skipped"].get(k, 0) + 1
+    out = []
+    if not ok:
+        out.append(("tie", "handle-leg guest crates do not build: " + log[-1500:], None))
+        return out, stats
+    seen = set()
+    for u in units:
+        if u.skip:
+            continue
+        o = G.Oracle(tools.oracle_exe)
+        g = G.Guest(ws.exe_of(u.modname))
+        R = G.Runner(o, g)
+        vr = vf.Rng(int(__import__("hashlib").sha256(("%d|%s" % (ctx.seed, u.modname)).encode()).hexdigest()[:15], 16))
+        try:
+            for fm in u.funcs:
+                tys = fm.params + ([fm.result] if fm.result else [])
+                if not any(("own" in G.kinds_of(t) or "borrow" in G.kinds_of(t)) for t in tys):
+                    continue
+                for c in range(ncalls):
+                    args = [G.gen_value(vr, t) for t in fm.params]
+                    ret = G.gen_value(vr, fm.result) if fm.result else None
+                    try:
+                        F, exp, act, d, args2, ret2 = C7.handle_call(R, g, u.modname, fm, args, ret)
+                    except G.GuestDied as e:
+                        F, exp, act, d, args2, ret2 = [G.Finding("crash", "guest-died", str(e)[-500:], "crash")], [], [], {}, args, ret
+                    stats["calls"] += 1
+                    stats["handle_leaves"] += len([e for e in exp if e.startswith("newh")])
+                    stats["events"] += len(act)
+                    problems = [f.klass for f in F]
+                    missing = [e for e in exp if exp.count(e) > act.count(e)]
+                    extra = [e for e in act if act.count(e) > exp.count(e)]
+                    if missing or extra:
+                        e0 = (extra or missing)[0]
+                        kind = e0.split(":")[0] + (":" + e0.split(":")[1] if e0.startswith("trap") else (":" + ("own" if e0.endswith(":1") else "borrow") if e0.startswith(("drop", "newh")) else ""))
+                        problems.append("handles:%s-%s" % ("extra" if extra else "missing", kind))
+                    if d.get("tbl") or d.get("need", "0") != "0":
+                        problems.append("handles:table-not-empty-after-call")
+                    for k in problems:
+                        if k in seen:
+                            continue
+                        seen.add(k)
+                        out.append(("rust:resource:" + k, "function %s of a world with injected handles, options %s: value/memory findings %s; handle events expected %s, real %s; table %r" % (
+                            fm.key(), u.opt.tag(), [repr(f)[:200] for f in F][:2], exp, act, d.get("tbl")),
+                            {"engine": "genrun-c07-handles", "wit": u.wit, "world": u.world, "options": u.opt.as_dict(), "function": fm.key(),
+                             "args": [G.show(a) for a in args], "ret": G.show(ret) if ret is not None else None}))
+                    if problems:
+                        R.cleanup([])
+        finally:
+            g.close()
+            o.close()
+    return out, stats
+
+
 def bad_class(res):
     """stable class of what went wrong on the REAL side (None if the real run satisfies the property)"""
     if res["crash"]:
@@ -96,7 +189,7 @@ def bad_class(res):
     if res["mem"]:
         return "allocator:" + res["mem"][0].split(": ")[-1].split(" (")[0].replace(" ", "-")[:40]
     if res["statement"]:
-        return "ledger:" + res["statement"][0].split(":")[0].replace(" ", "-")
+        return "ledger:" + re.sub(r"\d+", "N", res["statement"][0].split(":")[0]).replace(" ", "-")[:60]
     return None
 
 
@@ -166,7 +259,7 @@ def run(ctx):
             continue
         seen.add(k)
         opt = opts[int(m[1:])]
-        small = vf.shrink_list(seq, lambda s_: bool(s_) and bad_class(run_sequence(ws, mexe, m, s_)) == k, max_steps=60)
+        small = vf.shrink_list(seq, lambda s_: bool(s_) and bad_class(run_sequence(ws, mexe, m, s_)) == k, max_steps=60 if len(seen) <= 3 else 8)
         rr = run_sequence(ws, mexe, m, small)
         ctx.violation("rust:resource:" + k, "%s | traps %s | ledger %s | allocator %s | crash %s" % (
             rr["mismatch"], rr["traps"][:3], rr["statement"][:3], rr["mem"][:2], rr["crash"]),
@@ -189,13 +282,29 @@ def run(ctx):
                          "operation_histogram": kinds, "real_side_violations": len(real_bad), "events_compared": sum(r["events"] for _, r in results),
                          "wall_run_s": round(time.time() - t0, 1)},
     })
-    G.prune_workspaces(keep=10)
+    # ---- leg B: handles nested in aggregates, random worlds
+    try:
+        hv, hstats = handles_leg(ctx, tools)
+    except Exception as e:
+        import traceback
+        ctx.tie_broken("tie", "handle leg crashed: %s\n%s" % (e, traceback.format_exc()[-1500:]))
+        hv, hstats = [], {}
+    for key, text, ro in hv:
+        if ro is None:
+            ctx.tie_broken(key, text)
+        else:
+            ctx.violation(key, text, ro)
+    ctx.coverage["distribution"]["handles_in_aggregates_leg"] = hstats
+    ctx.coverage["evaluations"] += hstats.get("calls", 0)
+    G.prune_workspaces(keep=16)
 
 
 def replay(ctx, path):
     obj = json.load(open(path))
     ro = obj["replay"]
     tools = G.Tools()
+    if ro.get("engine") == "genrun-c07-handles":
+        return replay_handles(tools, ro, ctx)
     ws, ok, log, errs, ok2, mexe, mlog = build(tools)
     if not (ok and ok2):
         print("build failed", log[-1500:], mlog[-500:])
@@ -210,6 +319,39 @@ def replay(ctx, path):
     k = bad_class(r)
     print("verdict:", ("property violated on this sequence: " + k) if k else "property holds on this sequence")
     return 1 if k else 0
+
+
+def replay_handles(tools, ro, ctx):
+    opt = G.OptSet.from_dict(ro["options"])
+    units = G.prepare_units(tools, [("hbr0", ro["wit"], ro["world"], opt, "handles")], resources=True)
+    u = units[0]
+    if u.skip:
+        print("cannot prepare:", u.skip)
+        return 1
+    ws, ok, log = G.build_units(units, ncrates=1)
+    if not ok or u.skip:
+        print("cannot build:", u.skip or log[-1500:])
+        return 1
+    o = G.Oracle(tools.oracle_exe)
+    g = G.Guest(ws.exe_of("hbr0"))
+    R = G.Runner(o, g)
+    bad = 0
+    try:
+        for fm in u.funcs:
+            if fm.key() != ro["function"]:
+                continue
+            args = [G.parse_value(a) for a in ro["args"]]
+            ret = G.parse_value(ro["ret"]) if ro.get("ret") is not None else None
+            F, exp, act, d, _, _ = C7.handle_call(R, g, "hbr0", fm, args, ret)
+            print("findings:", F)
+            print("expected events:", exp)
+            print("real events    :", act, "table:", d.get("tbl"))
+            bad = 1 if (F or exp != act or d.get("tbl")) else 0
+    finally:
+        g.close()
+        o.close()
+    print("verdict:", "property violated on this input" if bad else "property holds on this input")
+    return bad
 
 
 META = {
